@@ -101,6 +101,17 @@ def subharnesses(tier):
                 subs.append(('%s-%s-%s-crash_in_cycle' % (sname, rg, '_'.join(
                     str(x) for x in ev if not isinstance(x, (list, dict)))),
                     spec))
+    # the masters post trace events for real (app_events_dir set): the start-up
+    # of the new master after a crash must survive that too
+    for sname, store in _stores(tier):
+        if sname not in ('r0_1', 'rn_n', 'r0_n'):
+            continue
+        st = _with_regime(store, 'tight')
+        for ev in (['schedule', 2], ['presence_down', 0]):
+            spec = dict(st, nservers=2, events=[ev], crash_in='cycle',
+                        post_events=True)
+            subs.append(('%s-tight-%s-crash_in_cycle-trace_events' % (
+                sname, '_'.join(str(x) for x in ev)), spec))
     return subs
 
 
@@ -111,6 +122,8 @@ def budget(tier, name):
 def harness(S, spec):
     W = g2.base_store(S, spec)
     b = W.backend
+    if spec.get('post_events'):
+        W.events_dir = 'fresh'
     m = g2.new_master(W)
     crashed = False
     k = S.int('crash_before_write', 0, 40)
@@ -156,6 +169,10 @@ def harness(S, spec):
         m2.check_placement_integrity()
     except AssertionError as e:
         S.fail('C10:new_master_fails_its_integrity_check', {'error': repr(e)})
+    except (AttributeError, TypeError, KeyError, ValueError) as e:
+        import traceback
+        S.fail('C10:new_master_does_not_complete_start_up',
+               {'error': repr(e), 'trace': traceback.format_exc()[-500:]})
     S.reach('restarted')
     g2.c09_oracle(W, m2, ':after_restart')
     g2.cycle(W, m2)
